@@ -147,13 +147,7 @@ def subTrailing (rep s : List Char) : List Char :=
     else s
 
 /-- decimal digits of `n`, as `str(n)` / `"{}".format(n)` -/
-def natDigitsAux : Nat → Nat → List Char → List Char
-  | 0, _, acc => acc
-  | fuel + 1, n, acc =>
-    let acc' := Char.ofNat (48 + n % 10) :: acc
-    if n < 10 then acc' else natDigitsAux fuel (n / 10) acc'
-
-def natDigits (n : Nat) : List Char := natDigitsAux (n + 1) n []
+def natDigits (n : Nat) : List Char := Nat.toDigits 10 n
 
 /-- `"_{}".format(counter)` -/
 def suffixOf (counter : Nat) : List Char := Gen.Paths.suffixLead ++ natDigits counter
